@@ -18,8 +18,29 @@ TRUSTED = ["model: C06.exportTree / C06.parseTree / C06.project (lean/Srctools/M
            "(tokenizer, escape_text, Keyvalues.parse) is the subject of C01/C02/C03 and is exercised here only through the search oracle",
            "numbers reach the model as canonical numeric strings produced by the implementation's own formatters "
            "(format_float, %g, str); their closeness to the original value is checked on the implementation only (search oracle)"]
-NOT_MODELLED = []
-ASSUMPTIONS = []
+NOT_MODELLED = [
+    "text level: the tokenizer, escape_text and Keyvalues.parse (subject of C01/C02/C03) - exercised here by the search oracle only; "
+    "a theorem C06_text composing the tree-level theorems with C01_roundtrip is not stated",
+    "theorems C06_tree_roundtrip_partial / C06_fixed_point_partial exclude displacement data and Strata point_data "
+    "(hypothesis SideOK1: points = none and disp = none); both ARE in the executable model (exportDisp/parseDisp, exportPoints/"
+    "parsePoints) and in the correspondence and the search oracle",
+    "float parsing: numbers are carried as tokens; that the implementation's formatter/parser pair is the identity on them and within "
+    "5e-7 / six significant digits of the original value is checked on the implementation only (search oracle), formally it belongs to C05",
+    "int() / float() corner forms (surrounding whitespace, '_' separators, non-ASCII digits) and str.casefold() outside ASCII",
+    "node id (nodeid keyvalue) reallocation by the node_id manager: treated as an ordinary keyvalue",
+    "the 5 x int64 form of allowed_verts (Strata Source)",
+    "Python set iteration order (id sets are compared as sets; the exporter now writes them sorted)",
+    "_tokenizer.pyx / _math.pyx (Cython twins, cannot be built here)",
+]
+ASSUMPTIONS = [
+    "entity keys, output names and fixup variables are over characters on which str.casefold() is ASCII lower-casing; names contain no CR/LF "
+    "(Keyvalues.parse rejects newlines in keys); keys are not 'id' and do not start with 'replace' (both are part of the format)",
+    "fixup variables contain no blank and do not start with '$'",
+    "output fields do not contain the separator in use (ESC, or ',' outside the parameter field when comma_sep) nor ';' in instance names; "
+    "names without instance part do not start with 'instance:'",
+    "coordinates in (-5e-7, 0) are not generated: format_float renders them '-0' (C05's finding), which re-exports as '0'",
+    "worldspawn is not hidden; format version is 100; Strata viewport lists have exactly four entries and no 2D coordinate equals +-65536",
+]
 
 
 # ------------------------------------------------------------------ intended projection (oracle)
@@ -469,7 +490,16 @@ def replay_known(ctx, finding):
     return any(k == finding['key'] for k, _ in fails)
 
 
-LEVEL_TEXT = "TODO"
-LEVEL_NOTE = "TODO"
-TECHNIQUE = "TODO"
+LEVEL_TEXT = ("Lean theorems about an executable tree-level model of VMF.export / VMF.parse (all classes, id managers, displacement and "
+              "Strata data included): C06_tree_roundtrip_partial (parseTree true (exportTree o m) = ok (project o m)) and "
+              "C06_fixed_point_partial (the second export equals the first) are proved for every map of the v1 domain (everything except "
+              "displacement / Strata point data on faces) and every option set, with per-structure theorems for entities, outputs, solids, "
+              "faces, visgroups, groups, cameras, cordons and viewports; C06_keys_written_are_read re-checks on every run that every key "
+              "written by an export is read by the matching parse in the current source. The model is tied to the code by a node-for-node "
+              "comparison of Keyvalues.parse(VMF.export()) with exportTree, of VMF.parse with parseTree (both preserve_ids modes) and of "
+              "project, on generated maps and every .vmf under tests/.")
+LEVEL_NOTE = ("Trusted: Lean kernel + propext/Classical.choice/Quot.sound; tools/gen_vmfKeys.py; the harness (map generator, dump, driver protocol). "
+              "Displacement / point_data round trip, numeric closeness and the text level are established by differential testing and the "
+              "direct round-trip oracle on the implementation, not by theorems; Cython twins are not covered.")
+TECHNIQUE = "Lean 4 proof by structural induction over the map and its keyvalues tree + translator (written keys subset of read keys) + differential correspondence and round-trip search on generated maps"
 DESIGN_REF = "DESIGN.md section 6, C06"
